@@ -288,8 +288,12 @@ class C12(Property):
         yield {'kind': 'census'}
         n = 250 if tier == 'quick' else 8000
         for i in range(n):
-            yield {'kind': 'history', 'seed': rng.randint(0, 10 ** 9), 'length': rng.randint(1, 25),
-                   'allow_clear': i % 10 == 0}
+            case = {'kind': 'history', 'seed': rng.randint(0, 10 ** 9), 'length': rng.randint(1, 25),
+                    'allow_clear': i % 10 == 0}
+            if i % 6 == 5:
+                # the history goes on with a deep copy of the ontology (the original stays alive, and is left alone)
+                case['copy_at'] = rng.randint(0, case['length'] - 1)
+            yield case
         # A, B, A on one element: every ordered pair of mutators of the property class (the class whose settings imply one
         # another), a sample of the pairs of the other classes (all of them in the thorough tier)
         table, _ = mutator_table()
@@ -337,7 +341,15 @@ class C12(Property):
         verdicts(validator, [0, 1])
         script = case.get('script')
         fixed_label, fixed_args = None, {}
+        original = None
         for step_no in range(case['length']):
+            if case.get('copy_at') == step_no:
+                import copy
+                original = o
+                o = copy.deepcopy(o)
+                original_state = (flatten(original), original.get_version())
+                validator = EventValidator(o)
+                verdicts(validator, [0, 1])
             if script:
                 # a scripted history: the named mutators of one class, all applied to the same element, a repeated mutator with
                 # the arguments of its first call (A, B, A: re-applying a setting after something else changed what it implies)
@@ -376,9 +388,13 @@ class C12(Property):
             if m == 'clear' or any(x['method'] == 'clear' for x in steps):
                 stale = False   # after clear() the counter is unreliable: covered by the known finding
             from vf import ownership
+            misowned = ownership.audit(o) or []
+            if original is not None and (flatten(original), original.get_version()) != original_state:
+                misowned = misowned + ['(the ontology this one is a deep copy of saw the call: its definitions or change counter moved)']
+                original_state = (flatten(original), original.get_version())
             steps.append({'target': label, 'method': m, 'kind': kind, 'raised': err, 'changed': before != after,
                           'moved': v1 > v0, 'decreased': v1 < v0, 'store': after, 'stale': stale,
-                          'misowned': ownership.audit(o) or []})
+                          'misowned': misowned})
         return steps
 
     def observe(self, case):
